@@ -43,6 +43,19 @@ type c16Rec struct {
 	passed                     int32 // the accept-hook chain got past the checker
 	early                      int32 // per-message hooks / handlers that ran before `passed`
 	exch, recvCalls            int32
+	// the other live sessions of the peer (established by the harness before the case starts) are
+	// not the connection under test: their accept / reader start / disconnect is kept apart
+	setup     int32 // 1 while the harness establishes them
+	nOthers   int32
+	others    sync.Map // the session (any interface holding the *session) -> index
+	otherDisc sync.Map // index -> true: that session ran its disconnect hook
+}
+
+func (r *c16Rec) otherIdx(s interface{}) (int, bool) {
+	if v, ok := r.others.Load(s); ok {
+		return v.(int), true
+	}
+	return 0, false
 }
 
 func (r *c16Rec) hook() *erpc.Status {
@@ -60,7 +73,11 @@ func (r *c16Rec) handler() {
 }
 
 func (r *c16Rec) Name() string { return "c16-rec" }
-func (r *c16Rec) PostAccept(erpc.PreSession) *erpc.Status {
+func (r *c16Rec) PostAccept(s erpc.PreSession) *erpc.Status {
+	if atomic.LoadInt32(&r.setup) == 1 {
+		r.others.Store(interface{}(s), int(atomic.AddInt32(&r.nOthers, 1))-1)
+		return nil
+	}
 	atomic.StoreInt32(&r.passed, 1)
 	return nil
 }
@@ -68,7 +85,10 @@ func (r *c16Rec) PostDial(erpc.PreSession, bool) *erpc.Status {
 	atomic.StoreInt32(&r.passed, 1)
 	return nil
 }
-func (r *c16Rec) PreReadHeader(erpc.PreCtx) error {
+func (r *c16Rec) PreReadHeader(ctx erpc.PreCtx) error {
+	if _, other := r.otherIdx(interface{}(ctx.Session())); other {
+		return nil
+	}
 	if atomic.LoadInt32(&r.passed) == 0 {
 		atomic.AddInt32(&r.early, 1)
 	}
@@ -90,7 +110,11 @@ func (r *c16Rec) PreWriteReply(erpc.WriteCtx) *erpc.Status      { return r.hook(
 func (r *c16Rec) PostWriteReply(erpc.WriteCtx) *erpc.Status     { return r.hook() }
 func (r *c16Rec) PreWritePush(erpc.WriteCtx) *erpc.Status       { return r.hook() }
 func (r *c16Rec) PostWritePush(erpc.WriteCtx) *erpc.Status      { return r.hook() }
-func (r *c16Rec) PostDisconnect(erpc.BaseSession) *erpc.Status {
+func (r *c16Rec) PostDisconnect(s erpc.BaseSession) *erpc.Status {
+	if i, other := r.otherIdx(interface{}(s)); other {
+		r.otherDisc.Store(i, true)
+		return nil
+	}
 	atomic.AddInt32(&r.disc, 1)
 	return nil
 }
@@ -139,19 +163,148 @@ func c16note(ctx erpc.PushCtx, arg *[]byte) *erpc.Status {
 type c16Env struct {
 	srv erpc.Peer
 	rec *c16Rec
+
+	// what the scripted checker did with the session it was handed (the connection under test)
+	mu     sync.Mutex
+	self   interface{} // the auth.Session (holds the *session)
+	selfID string      // its default id (the remote address)
+	cur    int         // current id (model numbering: 0 = default id)
+	ids    []int       // every id it had, oldest first
+	peeks  []string    // "<listed under the current id>:<CountSession>" per read
+	// other live sessions of the peer
+	setupNames chan string
+	otherSess  []erpc.Session
+	otherConns []*mem.Conn
+	otherIDs   []int
 }
 
-// c16Script is the scripted checker function: nrecv RecvOnce calls; prop: return the first non-OK
-// RecvOnce status; otherwise the verdict ("0" accept, "multi" = auth.MultiRecvErr, else a code).
+// c16Op is one session operation of the scripted checker: SetID(id) or a read of peer and session.
+type c16Op struct {
+	set bool
+	id  int
+}
+
+// c16Script is the scripted checker function: the session operations `pre`, nrecv RecvOnce calls,
+// the session operations `post`; prop: return the first non-OK RecvOnce status; otherwise the
+// verdict ("0" accept, "multi" = auth.MultiRecvErr, "panic", else a code).
 type c16Script struct {
 	nrecv   int
 	prop    bool
 	verdict string
+	pre     []c16Op
+	post    []c16Op
+}
+
+// c16ParseOps: "-" or "."-separated "s<id>" / "p".
+func c16ParseOps(s string) []c16Op {
+	if s == "" || s == "-" {
+		return nil
+	}
+	var ops []c16Op
+	for _, t := range strings.Split(s, ".") {
+		if t == "p" {
+			ops = append(ops, c16Op{})
+		} else if strings.HasPrefix(t, "s") {
+			ops = append(ops, c16Op{set: true, id: c16Atoi(t[1:])})
+		}
+	}
+	return ops
+}
+
+func c16ShowOps(ops []c16Op) string {
+	if len(ops) == 0 {
+		return "-"
+	}
+	ss := make([]string, len(ops))
+	for i, o := range ops {
+		ss[i] = "p"
+		if o.set {
+			ss[i] = "s" + strconv.Itoa(o.id)
+		}
+	}
+	return strings.Join(ss, ".")
+}
+
+// idStr: the session id string of model id n (0 = the default id of the connection under test).
+func (e *c16Env) idStr(n int) string {
+	if n == 0 {
+		return e.selfID
+	}
+	return "c16id-" + strconv.Itoa(n)
+}
+
+// owner: who `GetSession(id)` is: "s" the connection under test, "o<k>" another session, "-" nobody.
+func (e *c16Env) owner(id string) string {
+	got, ok := e.srv.GetSession(id)
+	if !ok {
+		return "-"
+	}
+	if e.self != nil && interface{}(got) == e.self {
+		return "s"
+	}
+	if i, other := e.rec.otherIdx(interface{}(got)); other {
+		return "o" + strconv.Itoa(i)
+	}
+	return "x"
+}
+
+// selfListed: RangeSession visits the connection under test.
+func (e *c16Env) selfListed() bool {
+	found := false
+	e.srv.RangeSession(func(s erpc.Session) bool {
+		if e.self != nil && interface{}(s) == e.self {
+			found = true
+		}
+		return true
+	})
+	return found
+}
+
+// doOps runs session operations of the checker on the session it was handed.
+func (e *c16Env) doOps(sess auth.Session, ops []c16Op) {
+	for _, o := range ops {
+		if o.set {
+			sess.SetID(e.idStr(o.id))
+			e.mu.Lock()
+			if o.id != e.cur {
+				e.cur = o.id
+				e.ids = append(e.ids, o.id)
+			}
+			e.mu.Unlock()
+			continue
+		}
+		p := sess.Peer()
+		e.mu.Lock()
+		cur := e.cur
+		e.mu.Unlock()
+		got, ok := p.GetSession(e.idStr(cur))
+		listed := 0
+		if ok && interface{}(got) == interface{}(sess) {
+			listed = 1
+		}
+		n := p.CountSession()
+		_ = sess.LocalAddr().String()
+		_ = sess.RemoteAddr().String()
+		sess.Swap().Store("c16-peek", n)
+		e.mu.Lock()
+		e.peeks = append(e.peeks, fmt.Sprintf("%d:%d", listed, n))
+		e.mu.Unlock()
+	}
 }
 
 func c16NewServer(k c16Script, unk bool) *c16Env {
 	rec := &c16Rec{}
+	env := &c16Env{rec: rec, ids: []int{0}, setupNames: make(chan string, 8)}
 	checker := auth.NewCheckerPlugin(func(sess auth.Session, fn auth.RecvOnce) (interface{}, *erpc.Status) {
+		if atomic.LoadInt32(&rec.setup) == 1 {
+			// another session of the peer being established by the harness: named and accepted
+			sess.SetID(<-env.setupNames)
+			return []byte("welcome"), nil
+		}
+		env.mu.Lock()
+		env.self, env.selfID = interface{}(sess), sess.RemoteAddr().String()
+		env.mu.Unlock()
+		env.doOps(sess, k.pre)
 		var firstErr *erpc.Status
 		for i := 0; i < k.nrecv; i++ {
 			var tok []byte
@@ -164,6 +317,7 @@ func c16NewServer(k c16Script, unk bool) *c16Env {
 				firstErr = st
 			}
 		}
+		env.doOps(sess, k.post)
 		if k.prop && firstErr != nil {
 			return nil, firstErr
 		}
@@ -200,12 +354,45 @@ func c16NewServer(k c16Script, unk bool) *c16Env {
 			return nil
 		})
 	}
-	return &c16Env{srv: srv, rec: rec}
+	env.srv = srv
+	return env
 }
 
 func (e *c16Env) close() {
 	c16RecOf.Delete(e.srv)
 	e.srv.Close()
+	for _, c := range e.otherConns {
+		c.Close()
+	}
+}
+
+// c16NoDL is a connection that ignores deadlines: the other sessions of the peer stay idle and alive
+// for the whole case, whatever the peer's session age.
+type c16NoDL struct{ *mem.Conn }
+
+func (c16NoDL) SetDeadline(time.Time) error      { return nil }
+func (c16NoDL) SetReadDeadline(time.Time) error  { return nil }
+func (c16NoDL) SetWriteDeadline(time.Time) error { return nil }
+
+// addOthers establishes other live sessions on the server, one per id (through the real accept
+// path and the real checker plugin, in setup mode).
+func (e *c16Env) addOthers(ids []int) {
+	if len(ids) == 0 {
+		return
+	}
+	atomic.StoreInt32(&e.rec.setup, 1)
+	for _, id := range ids {
+		oa, ob := mem.Pair("")
+		e.setupNames <- e.idStr(id)
+		sess, st := e.srv.ServeConn(c16NoDL{ob})
+		if sess == nil {
+			panic("c16: other session not established: " + st.String())
+		}
+		e.otherSess = append(e.otherSess, sess)
+		e.otherConns = append(e.otherConns, oa)
+		e.otherIDs = append(e.otherIDs, id)
+	}
+	atomic.StoreInt32(&e.rec.setup, 0)
 }
 
 // c16Pack renders one frame with the real raw protocol.
@@ -301,9 +488,49 @@ func c16Fin(ca *mem.Conn, fin string) {
 	}
 }
 
-// c16RunSrv runs one raw-client case against the real server.
-func c16RunSrv(line string, f map[string]string, out *hx.Out) (string, bool) {
-	k := c16Script{nrecv: c16Atoi(f["nrecv"]), prop: f["prop"] == "1", verdict: f["verdict"]}
+// c16RunSrv runs one raw-client case against the real server. ext (kind c16ck): the scripted checker
+// performs session operations, other sessions are live on the peer, and the observation also says
+// what the hub holds under every id the connection ever had.
+func c16RunSrv(line string, f map[string]string, out *hx.Out, ext bool) (string, bool) {
+	obs, nt, soft := c16RunSrvOnce(line, f, out, ext)
+	if len(soft) == 0 {
+		return obs, nt
+	}
+	// "a valid auth frame was rejected" / "accepted, but the calls pipelined behind the auth frame got
+	// no reply" is also what a stalled process looks like: the peer's 150 ms session / context ages
+	// are measured with a coarse clock that a background goroutine advances, and when that goroutine
+	// or the harness is starved of CPU the deadlines expire at once, for a while. A loss or a
+	// rejection caused by the code is deterministic: it is reported only if it shows on every one of
+	// five runs of the case, the later ones after a pause.
+	for i := 0; i < 4; i++ {
+		time.Sleep(time.Duration(200*(i+1)) * time.Millisecond)
+		scratch := &hx.Out{Hist: map[string]int{}}
+		obs2, nt2, soft2 := c16RunSrvOnce(line, f, scratch, ext)
+		if len(soft2) == 0 {
+			out.Count("noise:" + soft[0].Sig + ":not-reproduced")
+			for _, v := range scratch.Viol {
+				out.Violate(v.Line, v.Oracle, v.Detail, v.Sig)
+			}
+			return obs2, nt2
+		}
+	}
+	for _, v := range soft {
+		out.Violate(v.Line, v.Oracle, v.Detail, v.Sig)
+	}
+	return obs, nt
+}
+
+// c16RunSrvOnce: one run; soft = the failures of the two oracles that a process stall can also cause
+// (not yet reported; see c16RunSrv).
+func c16RunSrvOnce(line string, f map[string]string, out *hx.Out, ext bool) (obsLine string, nontrivial bool, soft []hx.Violation) {
+	k := c16Script{nrecv: c16Atoi(f["nrecv"]), prop: f["prop"] == "1", verdict: f["verdict"],
+		pre: c16ParseOps(f["pre"]), post: c16ParseOps(f["post"])}
+	var others []int
+	if o := f["others"]; o != "" && o != "-" {
+		for _, t := range strings.Split(o, ",") {
+			others = append(others, c16Atoi(t))
+		}
+	}
 	unk := f["unk"] == "1"
 	bytes_ := hx.UnHex(f["bytes"])
 	tail := hx.UnHex(f["tail"])
@@ -316,13 +543,40 @@ func c16RunSrv(line string, f map[string]string, out *hx.Out) (string, bool) {
 
 	env := c16NewServer(k, unk)
 	defer env.close()
+	env.addOthers(others)
 	ca, cb := mem.Pair("")
 
 	var (
 		stCode int32 = -999
 		hub1   int
 		done   = make(chan struct{})
+		// at the moment ServeConn returns: ids (other than the current one) under which the
+		// connection is still listed
+		former1 []string
 	)
+	// selfIDs: every id the connection under test ever had, oldest first, and the current one.
+	selfIDs := func() (ids []int, cur int) {
+		env.mu.Lock()
+		defer env.mu.Unlock()
+		return append([]int(nil), env.ids...), env.cur
+	}
+	listedUnder := func() (under []string, former []string) {
+		ids, cur := selfIDs()
+		seen := map[int]bool{}
+		for _, id := range ids {
+			if seen[id] {
+				continue
+			}
+			seen[id] = true
+			if env.owner(env.idStr(id)) == "s" {
+				under = append(under, strconv.Itoa(id))
+				if id != cur {
+					former = append(former, strconv.Itoa(id))
+				}
+			}
+		}
+		return
+	}
 	var ml *mem.Listener
 	serve := func() {
 		if lis {
@@ -336,6 +590,13 @@ func c16RunSrv(line string, f map[string]string, out *hx.Out) (string, bool) {
 			defer func() { recover() }()
 			_, st := env.srv.ServeConn(cb)
 			hub1 = env.srv.CountSession()
+			if ext {
+				hub1 = 0
+				if env.selfListed() {
+					hub1 = 1
+				}
+			}
+			_, former1 = listedUnder()
 			stCode = st.Code()
 		}()
 	}
@@ -415,6 +676,24 @@ func c16RunSrv(line string, f map[string]string, out *hx.Out) (string, bool) {
 	disc, exch := atomic.LoadInt32(&rec.disc), atomic.LoadInt32(&rec.exch)
 	passed := atomic.LoadInt32(&rec.passed) == 1
 	hub := env.srv.CountSession()
+	// the other sessions of the peer: closed (their disconnect hook ran) or still there
+	liveOthers := 0
+	var kicked []string
+	for i := range env.otherSess {
+		if _, gone := env.rec.otherDisc.Load(i); gone {
+			kicked = append(kicked, strconv.Itoa(i))
+		} else {
+			liveOthers++
+		}
+	}
+	cnt := hub
+	if ext {
+		hub = 0
+		if env.selfListed() {
+			hub = 1
+		}
+	}
+	underEnd, formerEnd := listedUnder()
 	closed := atomic.LoadInt32(&cb.Closed)
 	frames := sent()
 	if lis {
@@ -430,6 +709,28 @@ func c16RunSrv(line string, f map[string]string, out *hx.Out) (string, bool) {
 	}
 	obs := fmt.Sprintf("st=%s hc=%d hk=%d prh=%d hub1=%d hub=%d closed=%d disc=%d exch=%d out=%s",
 		st, hc, hk, prh, hub1, hub, closed, disc, exch, c16ShowOut(frames))
+	ids, _ := selfIDs()
+	if ext {
+		joinOr := func(l []string) string {
+			if len(l) == 0 {
+				return "-"
+			}
+			return strings.Join(l, ",")
+		}
+		var idl, ends []string
+		seen := map[int]bool{}
+		for _, id := range ids {
+			idl = append(idl, strconv.Itoa(id))
+			if !seen[id] {
+				seen[id] = true
+				ends = append(ends, fmt.Sprintf("%d:%s", id, env.owner(env.idStr(id))))
+			}
+		}
+		env.mu.Lock()
+		peeks := append([]string(nil), env.peeks...)
+		env.mu.Unlock()
+		obs += fmt.Sprintf(" ids=%s peeks=%s end=%s cnt=%d kicked=%s", joinOr(idl), joinOr(peeks), joinOr(ends), cnt, joinOr(kicked))
+	}
 
 	// ---- the property's own oracles -------------------------------------------------------------
 	accepted := stCode == 0
@@ -438,8 +739,13 @@ func c16RunSrv(line string, f map[string]string, out *hx.Out) (string, bool) {
 		if hc != 0 || hk != 0 || prh != 0 {
 			out.Violate(line, "no-handler-before-auth", fmt.Sprintf("connection not authenticated (ServeConn status %s) but handlers=%d hooks=%d preReadHeader=%d ran", st, hc, hk, prh), "c16:handler-before-auth")
 		}
-		if hub1 != 0 || hub != 0 {
-			out.Violate(line, "rejected-unlisted", fmt.Sprintf("rejected connection listed: at return %d, at the end %d", hub1, hub), "c16:rejected-still-listed")
+		if hub1 != 0 || hub != 0 || cnt != liveOthers {
+			out.Violate(line, "rejected-unlisted", fmt.Sprintf("rejected connection listed: at return %d, at the end %d (CountSession %d, other live sessions %d)", hub1, hub, cnt, liveOthers), "c16:rejected-still-listed")
+		}
+		// not listed under ANY id the connection ever had (the checker may have renamed it), and
+		// not visited by RangeSession
+		if len(underEnd) > 0 || env.selfListed() {
+			out.Violate(line, "rejected-unlisted", fmt.Sprintf("rejected connection (status %s) is still in the session hub: GetSession finds it under id(s) [%s] of the ids it had %v (0 = its default id); RangeSession visits it: %v", st, strings.Join(underEnd, ","), ids, env.selfListed()), "c16:rejected-listed-by-id")
 		}
 		if closed != 1 {
 			out.Violate(line, "rejected-closed", "rejected connection was not closed by the server", "c16:rejected-not-closed")
@@ -449,6 +755,26 @@ func c16RunSrv(line string, f map[string]string, out *hx.Out) (string, bool) {
 				out.Violate(line, "no-handler-before-auth", "server answered an application message on a rejected connection: "+c16ShowOut(frames), "c16:reply-before-auth")
 				break
 			}
+		}
+	}
+	// never listed under an id it no longer has (accepted connections too)
+	if len(former1) > 0 || len(formerEnd) > 0 {
+		out.Violate(line, "listed-under-current-id-only", fmt.Sprintf("connection listed under former id(s): when ServeConn returned [%s], at the end [%s] (ids it had: %v)", strings.Join(former1, ","), strings.Join(formerEnd, ","), ids), "c16:listed-under-former-id")
+	}
+	// the sessions of other connections: untouched unless the connection took their id
+	for i, os := range env.otherSess {
+		_, gone := env.rec.otherDisc.Load(i)
+		took := false
+		for _, id := range ids {
+			if id == env.otherIDs[i] {
+				took = true
+			}
+		}
+		if took {
+			continue
+		}
+		if as := env.owner(env.idStr(env.otherIDs[i])); gone || !os.Health() || as != "o"+strconv.Itoa(i) {
+			out.Violate(line, "other-sessions-untouched", fmt.Sprintf("other session %d (id %d, never taken by the connection under test): closed=%v healthy=%v GetSession(id)=%s", i, env.otherIDs[i], gone, os.Health(), as), "c16:other-session-disturbed")
 		}
 	}
 	if atomic.LoadInt32(&rec.early) != 0 {
@@ -461,7 +787,7 @@ func c16RunSrv(line string, f map[string]string, out *hx.Out) (string, bool) {
 		out.Violate(line, "accepted-only-after-auth", "connection accepted although the client's first frame was not an accepted AUTH_CALL", "c16:accepted-without-auth")
 	}
 	if strict && !accepted && wantAuth == 1 {
-		out.Violate(line, "valid-auth-accepted", "valid AUTH_CALL with accepting verdict was rejected: "+st, "c16:valid-auth-rejected")
+		soft = append(soft, hx.Violation{Line: line, Oracle: "valid-auth-accepted", Detail: "valid AUTH_CALL with accepting verdict was rejected: " + st, Sig: "c16:valid-auth-rejected"})
 	}
 	if accepted && ncall > 0 && wantAuth == 1 {
 		n := 0
@@ -471,7 +797,7 @@ func c16RunSrv(line string, f map[string]string, out *hx.Out) (string, bool) {
 			}
 		}
 		if n != ncall {
-			out.Violate(line, "pipelined-not-lost", fmt.Sprintf("%d pipelined calls, %d replies", ncall, n), "c16:pipelined-lost")
+			soft = append(soft, hx.Violation{Line: line, Oracle: "pipelined-not-lost", Detail: fmt.Sprintf("%d pipelined calls, %d replies", ncall, n), Sig: "c16:pipelined-lost"})
 		}
 	}
 
@@ -481,10 +807,35 @@ func c16RunSrv(line string, f map[string]string, out *hx.Out) (string, bool) {
 	default:
 		out.Count("res:rejected:" + st)
 	}
+	if ext {
+		res := "rejected"
+		if accepted {
+			res = "accepted"
+		}
+		if len(ids) > 1 {
+			out.Count("ck:renamed:" + res)
+		} else {
+			out.Count("ck:not-renamed:" + res)
+		}
+		if len(kicked) > 0 {
+			out.Count("ck:took-id-of-live-session:" + res)
+		}
+		env.mu.Lock()
+		for _, p := range env.peeks {
+			out.Count("ck:read:listed=" + p[:1])
+		}
+		env.mu.Unlock()
+		if lis {
+			out.Count("ck:listener-path")
+		}
+		if len(others) > 0 {
+			out.Count("ck:with-other-sessions")
+		}
+	}
 	out.Count("fin:" + fin)
 	out.Count("tim:" + strconv.Itoa(tim))
 	out.Count("family:" + f["fam"])
-	return obs, len(bytes_) > 0 || fin != "close"
+	return obs, len(bytes_) > 0 || fin != "close", soft
 }
 
 // c16OneLis is a listener that yields one connection and then blocks until closed.
@@ -695,6 +1046,10 @@ type c16Case struct {
 	tim     int
 	ncall   int
 	auth    int // 1: must be accepted (strict script), 0: must not, 2: unknown
+	// kind c16ck: session operations of the checker, ids of the other live sessions of the peer
+	ext       bool
+	pre, post []c16Op
+	others    []int
 }
 
 func (c *c16Case) line() string {
@@ -706,9 +1061,155 @@ func (c *c16Case) line() string {
 		}
 		cuts = strings.Join(s, ",")
 	}
-	return fmt.Sprintf("c16srv fam=%s lis=%s nrecv=%d prop=%s verdict=%s bytes=%s tail=%s cuts=%s early=%s fin=%s unk=%s tim=%d ncall=%d auth=%d",
+	l := fmt.Sprintf("c16srv fam=%s lis=%s nrecv=%d prop=%s verdict=%s bytes=%s tail=%s cuts=%s early=%s fin=%s unk=%s tim=%d ncall=%d auth=%d",
 		c.fam, c16Bool(c.lis), c.nrecv, c16Bool(c.prop), c.verdict, hx.Hex(c.bytes), hx.Hex(c.tail), cuts,
 		c16Bool(c.early), c.fin, c16Bool(c.unk), c.tim, c.ncall, c.auth)
+	if c.ext {
+		oth := "-"
+		if len(c.others) > 0 {
+			ss := make([]string, len(c.others))
+			for i, x := range c.others {
+				ss[i] = strconv.Itoa(x)
+			}
+			oth = strings.Join(ss, ",")
+		}
+		l = "c16ck" + strings.TrimPrefix(l, "c16srv") + fmt.Sprintf(" pre=%s post=%s others=%s", c16ShowOps(c.pre), c16ShowOps(c.post), oth)
+	}
+	return l
+}
+
+// c16GenCk: the checker does what a real checker can do with the session it is handed — rename it
+// (to a fresh id, to the id of another live session, to the id it has, back to the default id),
+// read the peer — before and/or after RecvOnce, and then every verdict class follows: accept,
+// reject, MultiRecvErr, panic, a deadline or a cut during the exchange, a wrong first frame, a
+// failed reply write; on both accept paths; with and without other live sessions on the peer.
+func c16GenCk(g *c16Gen, thorough bool) []*c16Case {
+	r := g.r
+	n := 70
+	if thorough {
+		n = 700
+	}
+	var cs []*c16Case
+	for i := 0; i < n; i++ {
+		c := &c16Case{fam: "ckops", ext: true, nrecv: 1, prop: true, verdict: "0", fin: "close", tim: r.Intn(4), auth: 2}
+		c.lis = r.Intn(4) == 0
+		// other live sessions: distinct ids out of 1..4
+		if r.Intn(2) == 0 {
+			perm := []int{1, 2, 3, 4}
+			for j := 0; j < 1+r.Intn(2); j++ {
+				k := j + r.Intn(len(perm)-j)
+				perm[j], perm[k] = perm[k], perm[j]
+				c.others = append(c.others, perm[j])
+			}
+		}
+		// session operations
+		cur := 0
+		used := []int{0}
+		fresh := 5
+		mkOps := func(n int, pSet int) []c16Op {
+			var ops []c16Op
+			for j := 0; j < n; j++ {
+				if r.Intn(100) >= pSet {
+					ops = append(ops, c16Op{})
+					continue
+				}
+				id := 0
+				switch x := r.Intn(10); {
+				case x < 4: // a fresh id
+					id = fresh
+					fresh++
+				case x < 6 && len(c.others) > 0: // the id of another live session
+					id = c.others[r.Intn(len(c.others))]
+				case x < 7: // the id it has
+					id = cur
+				case x < 8: // the default id
+					id = 0
+				default: // an id it had before
+					id = used[r.Intn(len(used))]
+				}
+				ops = append(ops, c16Op{set: true, id: id})
+				cur = id
+				used = append(used, id)
+			}
+			return ops
+		}
+		switch r.Intn(4) {
+		case 0:
+			c.pre = mkOps(1+r.Intn(2), 75)
+		case 1:
+			c.post = mkOps(1+r.Intn(3), 75)
+		default:
+			c.pre = mkOps(r.Intn(2), 75)
+			c.post = mkOps(1+r.Intn(2), 80)
+		}
+		c.nrecv = r.Pick(1, 1, 1, 1, 1, 0, 2)
+		okAuth := func() { c.bytes = c16Pack(g.authFrame()) }
+		class := r.Intn(9)
+		switch class {
+		case 0, 1: // reject
+			okAuth()
+			c.verdict = []string{"403", "401", "500", "1", "-1"}[r.Intn(5)]
+			c.fin = []string{"close", "close", "silent"}[r.Intn(3)]
+		case 2: // accept; possibly a call pipelined behind the auth frame
+			okAuth()
+			// (a checker that accepts without RecvOnce leaves the AUTH_CALL to the read loop, which
+			// closes the session for the wrong type: whether a frame behind it is still handled is a
+			// race of the established session, not a matter of this property)
+			if c.nrecv >= 1 && r.Intn(2) == 0 {
+				c.bytes = append(c.bytes, c16Pack(g.frame(erpc.TypeCall, c16CallPath, 0))...)
+				c.ncall = 1
+			}
+			c.fin = []string{"close", "close", "silent"}[r.Intn(3)]
+		case 3: // the checker faults / returns MultiRecvErr
+			okAuth()
+			c.verdict = []string{"panic", "multi"}[r.Intn(2)]
+		case 4: // deadline during the exchange: nothing, or an incomplete auth frame, then silence
+			if r.Intn(2) == 0 {
+				fr := c16Pack(g.authFrame())
+				c.bytes = fr[:1+r.Intn(len(fr)-1)]
+			}
+			c.fin = "silent"
+		case 5: // the client goes away during the exchange
+			if r.Intn(2) == 0 {
+				fr := c16Pack(g.authFrame())
+				c.bytes = fr[:r.Intn(len(fr))]
+			}
+			c.fin, c.early = []string{"close", "brk"}[r.Intn(2)], true
+		case 6: // first frame is not an auth call
+			m, _ := g.appFrame()
+			c.bytes = c16Pack(m)
+			c.verdict = []string{"0", "403"}[r.Intn(2)]
+			if c.nrecv == 0 {
+				c.nrecv = 1
+			}
+		case 7: // accepting verdict, but the reply cannot be written
+			okAuth()
+			c.fin, c.early = "brk", true
+		default: // a checker that does not propagate RecvOnce errors
+			okAuth()
+			c.prop = false
+			c.verdict = []string{"0", "403", "panic"}[r.Intn(3)]
+		}
+		if c.prop && c.nrecv == 1 {
+			switch class {
+			case 0, 1, 3:
+				c.auth = 0
+			case 2:
+				c.auth = 1
+			}
+		}
+		if c.early {
+			// an accepted connection whose client is already gone races its own disconnect with the
+			// accept path's hub.set (lifecycle, C07): keep early cases to the rejecting classes
+			c.tim = 0
+			c.prop = true
+			if c.nrecv == 0 {
+				c.nrecv = 1
+			}
+		}
+		cs = append(cs, c)
+	}
+	return cs
 }
 
 func c16GenCases(r *hx.R, tier string, out *hx.Out) []string {
@@ -987,6 +1488,10 @@ func c16GenCases(r *hx.R, tier string, out *hx.Out) []string {
 	for _, v := range []string{"0", "403", "0", "401"} {
 		lines = append(lines, "c16e2e verdict="+v)
 	}
+	// appended after everything else: the case lines above are the same as before for a given seed
+	for _, c := range c16GenCk(g, thorough) {
+		lines = append(lines, c.line())
+	}
 	return lines
 }
 
@@ -1007,7 +1512,9 @@ func init() {
 			}()
 			switch kind {
 			case "c16srv":
-				return c16RunSrv(line, f, out)
+				return c16RunSrv(line, f, out, false)
+			case "c16ck":
+				return c16RunSrv(line, f, out, true)
 			case "c16dial", "c16e2e":
 				return c16RunDial(kind, line, f, out)
 			}
